@@ -424,7 +424,7 @@ static void do_op(vf_rng *r, int op, char *desc, size_t dcap, size_t *dl)
 	check_all(opn[op], target, ctx);
 }
 
-uint64_t vf_cases(void) { return vf_thorough ? 1000000 : 100000; }
+uint64_t vf_cases(void) { return vf_thorough ? 3000000 : 100000; }
 
 void vf_case(uint64_t idx, vf_rng *r)
 {
